@@ -216,6 +216,11 @@ def call_method(it, obj, name, args, kwargs):
 
 # ---- native fakes ------------------------------------------------------------------------------
 
+class ReplaySkip(BaseException):
+    """The native harness cannot continue this run (e.g. a blocking read with nothing scripted):
+    the run is skipped, it is neither a pass nor a failure."""
+
+
 class NonTermination(BaseException):
     """Raised by a native fake when the code under replay evidently does not terminate."""
 
@@ -235,6 +240,51 @@ class FakeFile:
 
     def __repr__(self):
         return f'FakeFile({self.out!r})'
+
+
+class FakeQueue:
+    """Queue whose put() records and whose get() replays a scripted list of inputs."""
+
+    def __init__(self, out=None, gets=None, inputs=None):
+        self.out = list(out or [])
+        self.gets = list(gets or [])
+        self.inputs = list(inputs or [])
+
+    def put(self, item, *a, **k):
+        self.out.append(item)
+
+    def get(self, *a, **k):
+        if not self.inputs:
+            raise ReplaySkip('Queue.get() would block: no scripted input left')
+        m = self.inputs.pop(0)
+        self.gets.append(m)
+        return m
+
+    def __eq__(self, other):
+        return isinstance(other, FakeQueue) and (self.out, self.gets) == (other.out, other.gets)
+
+    def __repr__(self):
+        return f'FakeQueue(out={self.out!r}, gets={self.gets!r})'
+
+
+class FakeEvent:
+    def wait(self, *a):
+        return True
+
+    def set(self):
+        pass
+
+    def clear(self):
+        pass
+
+    def is_set(self):
+        return True
+
+    def __eq__(self, other):
+        return isinstance(other, FakeEvent)
+
+    def __repr__(self):
+        return 'FakeEvent()'
 
 
 class FakeSocket:
